@@ -120,8 +120,15 @@ func genBenign(r rng) *Spec {
 	ratio := r.pickI(3, 4, 5, 10)
 	s := &Spec{Benign: true, NoPreempt: true, TTL: time.Duration(ratio) * hBase}
 	minH := hBase
+	// group names are free text (the record key of a group is its name): in a third of the
+	// two-group scenarios the two names differ only in characters a key-sanitiser would fold
+	gname := func(j int) string { return fmt.Sprintf("g%d", j) }
+	if groups == 2 && r.chance(0.35) {
+		pair := [][2]string{{"team:a", "team_a"}, {"reports.eu.", "reports.eu"}, {"x y", "x_y"}, {"Prod", "prod"}, {" g", "g"}, {"a/b", "a_b"}}[r.IntN(6)]
+		gname = func(j int) string { return pair[j] }
+	}
 	for i := 0; i < n; i++ {
-		is := InstSpec{Name: fmt.Sprintf("i%d", i), Group: fmt.Sprintf("g%d", i%groups), H: hBase}
+		is := InstSpec{Name: fmt.Sprintf("i%d", i), Group: gname(i % groups), H: hBase}
 		if r.chance(0.2) {
 			is.H = hBase / 2
 			if is.H < minH {
